@@ -112,7 +112,7 @@ def emit(ctx, facts_info, analysed, level="other", out=print):
     ctx.finish_floors()
     prop = ctx.prop
     known = {k["key"]: k for k in load_known().get("findings", []) if k.get("property") == prop}
-    ev_dir = os.path.join(VERIF, "evidence")
+    ev_dir = os.environ.get("VV_EVIDENCE_DIR") or os.path.join(VERIF, "evidence")
     rp_dir = os.path.join(ev_dir, "replay")
     os.makedirs(rp_dir, exist_ok=True)
     for f in os.listdir(rp_dir):
